@@ -161,4 +161,47 @@ THEOREM NeverAbove == Spec => []NeverAboveStop
   <1>1. IInv => NeverAboveStop
     BY Consts, DepthNat DEF IInv, NeverAboveStop, Constrained, OnChain, Passed
   <1> QED BY <1>1, Safety, PTL
+
+\* ---------------------------------------------------------------------------------------------------------------------
+\* Termination for every depth, as a ranking argument: Rank is a natural number that every step other than stuttering
+\* strictly decreases, and while phase # "done" the action of that phase is enabled (its guard is the phase alone); under the
+\* weak fairness of Spec the walk therefore reaches "done".  (TLC checks the temporal property Terminates itself for
+\* Depth <= 3; this removes the bound from the decreasing-measure half of the argument.)
+Dist(d) == IF d = Root THEN 0 ELSE IF d = U THEN 1 ELSE d + 1
+PhaseRank == CASE phase = "abs" -> 4 [] phase = "scan" -> 3 [] phase = "stoptest" -> 2 [] phase = "up" -> 1 [] OTHER -> 0
+Rank == IF phase = "done" THEN 0 ELSE 4 * Dist(cur) + PhaseRank
+
+LEMMA RankNat == IInv => Rank \in Nat
+  BY Consts, DepthNat DEF IInv, OnChain, Rank, Dist, PhaseRank
+
+THEOREM RankDecreases == IInv /\ IInv' /\ [Next]_vars => (Rank' < Rank \/ UNCHANGED vars)
+  <1> SUFFICES ASSUME IInv, IInv', [Next]_vars PROVE Rank' < Rank \/ UNCHANGED vars OBVIOUS
+  <1> USE Consts, DepthNat
+  <1>0. cur \in Int /\ (cur = Root \/ cur = U \/ cur \in 0..Depth)
+    BY DEF IInv, OnChain
+  <1>1. CASE Abs
+    BY <1>1, <1>0 DEF Abs, cfgv, Rank, Dist, PhaseRank
+  <1>2. CASE Scan
+    <2>1. phase = "scan" /\ cur' = cur /\ phase' \in {"done", "stoptest"}
+      BY <1>2, Fixed DEF Scan, cfgv
+    <2> QED BY <2>1, <1>0 DEF Rank, Dist, PhaseRank
+  <1>3. CASE StopTest
+    <2>1. phase = "stoptest" /\ cur' = cur /\ phase' \in {"done", "up"}
+      BY <1>3 DEF StopTest, cfgv
+    <2> QED BY <2>1, <1>0 DEF Rank, Dist, PhaseRank
+  <1>4. CASE Up
+    <2>1. phase = "up" /\ phase' = "scan" /\ cur' = DirOf[1] BY <1>4 DEF Up
+    <2>2. curSp = "clean" /\ cur # Root BY <2>1 DEF IInv
+    <2>3. DirOf = <<Parent(cur), "clean">> BY <2>2 DEF DirOf
+    <2>4. cur' = Parent(cur) BY <2>1, <2>3
+    <2>5. Dist(cur') + 1 <= Dist(cur) BY <2>4, <2>2, <1>0 DEF Dist, Parent
+    <2>6. Dist(cur) \in Nat /\ Dist(cur') \in Nat BY <2>4, <2>2, <1>0 DEF Dist, Parent
+    <2> QED BY <2>1, <2>5, <2>6 DEF Rank, PhaseRank
+  <1>5. CASE Stutter \/ UNCHANGED vars
+    BY <1>5 DEF Stutter
+  <1> QED BY <1>1, <1>2, <1>3, <1>4, <1>5 DEF Next
+
+\* while the walk has not finished, the action of the current phase can be taken: its guard is the phase alone
+LEMMA PhaseGuards == IInv /\ phase # "done" => phase \in {"abs", "scan", "stoptest", "up"}
+  BY DEF IInv
 =============================================================================
